@@ -66,6 +66,8 @@ pub enum Op {
     SetArg(usize, usize, usize),
     Wire(usize, usize),
     UnsetArg(usize, usize, usize),
+    /// remove the k-th argument edge that an earlier `Wire` set (if it is still there)
+    Unwire(usize),
     Export(usize, String),
     Unexport(usize),
     Name(usize, String),
@@ -224,6 +226,42 @@ pub fn gen_graph_script(t: &mut Tape, max_ops: u64) -> (GraphScript, Vec<&'stati
             ops.push(tail_marker);
         }
     }
+    if (family == 1 || family == 2) && t.chance(1, 3) {
+        // scripted: a provider is wired into a target, the graph is observed, the wiring is
+        // taken away again and the history ends (or goes on) — in both creation orders
+        const PAIRS: &[(&str, &str)] = &[
+            ("test:store", "test:logger"),
+            ("test:leaf-a", "test:leaf-c"),
+            ("test:app", "test:logger"),
+            ("test:leaf-b", "test:leaf-c"),
+            ("test:mixer", "test:logger"),
+        ];
+        let (tn, pn) = PAIRS[t.index(PAIRS.len())];
+        let find = |n: &str| lib.iter().position(|p| p.name == n).unwrap_or(0);
+        ops.push(Op::Register(find(tn)));
+        ops.push(Op::Register(find(pn)));
+        let target_first = t.chance(1, 2);
+        if target_first {
+            ops.push(Op::Instantiate(0));
+            ops.push(Op::Instantiate(1));
+            ops.push(Op::Wire(0, 1));
+        } else {
+            ops.push(Op::Instantiate(1));
+            ops.push(Op::Instantiate(0));
+            ops.push(Op::Wire(1, 0));
+        }
+        registered += 2;
+        instances += 2;
+        if t.chance(3, 4) {
+            ops.push(Op::Snapshot);
+        }
+        ops.push(Op::Unwire(t.index(4)));
+        if t.chance(1, 2) {
+            ops.push(Op::Snapshot);
+        }
+        probes.push("scripted_wire_observe_unwire");
+    }
+    let nops = if ops.iter().any(|o| matches!(o, Op::Unwire(..))) && t.chance(1, 2) { 0 } else { nops };
     for k in 0..nops {
         let pick = t.draw(24);
         let op = match (family, pick) {
@@ -255,7 +293,13 @@ pub fn gen_graph_script(t: &mut Tape, max_ops: u64) -> (GraphScript, Vec<&'stati
                 0 => Op::Name(t.index(64), format!("n{k}")),
                 1 => Op::Unexport(t.index(64)),
                 2 => Op::SetArg(t.index(64), t.index(8), t.index(64)),
-                _ => Op::UnsetArg(t.index(64), t.index(8), t.index(64)),
+                _ => {
+                    if t.chance(1, 2) {
+                        Op::Unwire(t.index(8))
+                    } else {
+                        Op::UnsetArg(t.index(64), t.index(8), t.index(64))
+                    }
+                }
             },
             (3, _) => match t.draw(5) {
                 0 => Op::Remove(t.index(64)),
@@ -350,6 +394,8 @@ struct Interp {
     packages: Vec<PackageId>,
     nodes: Vec<NodeId>,
     instantiations: Vec<NodeId>,
+    /// argument edges set by `Wire`: (target instantiation, argument name, alias node)
+    wired: Vec<(NodeId, String, NodeId)>,
 }
 
 impl Interp {
@@ -411,6 +457,40 @@ fn observe_graph_state(g: &CompositionGraph, tag: &str, obs: &mut Obs) {
             Err(e) => format!("err:{}", err_chain(&e)),
         },
     ));
+    // in-process invariants: the clone encodes to what the original encodes to, and encoding
+    // the same graph again (after it has been encoded and cloned) gives the same bytes
+    let again = g.encode(EncodeOptions {
+        define_components: true,
+        validate: false,
+        processor: None,
+    });
+    let again = match again {
+        Ok(b) => format!("ok:{}:{}", b.len(), sha256_hex(&b)),
+        Err(e) => format!("err:{}", err_chain(&e)),
+    };
+    let first = obs
+        .iter()
+        .rev()
+        .find(|(k, _)| *k == format!("{tag}encode-defined"))
+        .map(|(_, v)| v.clone())
+        .unwrap_or_default();
+    let cloned = obs.last().map(|(_, v)| v.clone()).unwrap_or_default();
+    obs.push((
+        format!("{tag}invariant:clone-encodes-like-original"),
+        if cloned == first { "holds".into() } else { format!("VIOLATED: original `{first}` clone `{cloned}`") },
+    ));
+    obs.push((
+        format!("{tag}invariant:second-encode-like-first"),
+        if again == first { "holds".into() } else { format!("VIOLATED: first `{first}` second `{again}`") },
+    ));
+}
+
+/// The observations of a graph history's final state only (no `snapN:` / `op-result:` keys).
+fn final_state(obs: &Obs) -> Obs {
+    obs.iter()
+        .filter(|(k, _)| !k.starts_with("snap") && !k.starts_with("op-result:"))
+        .cloned()
+        .collect()
 }
 
 pub fn observe_graph(script: &GraphScript) -> Obs {
@@ -422,6 +502,7 @@ pub fn observe_graph(script: &GraphScript) -> Obs {
         packages: Vec::new(),
         nodes: Vec::new(),
         instantiations: Vec::new(),
+        wired: Vec::new(),
     };
     // create the types (not yet defined in the graph)
     for (i, spec) in script.types.iter().enumerate() {
@@ -613,7 +694,10 @@ pub fn observe_graph(script: &GraphScript) -> Obs {
                                 Ok(a) => {
                                     it.nodes.push(a);
                                     match it.graph.set_instantiation_argument(tgt, name, a) {
-                                        Ok(()) => out.push(format!("{name}=ok")),
+                                        Ok(()) => {
+                                            it.wired.push((tgt, name.clone(), a));
+                                            out.push(format!("{name}=ok"))
+                                        }
                                         Err(e) => out.push(format!("{name}=err:{}", err_chain(&e))),
                                     }
                                 }
@@ -621,6 +705,22 @@ pub fn observe_graph(script: &GraphScript) -> Obs {
                             }
                         }
                         format!("wired[{}]", out.join(","))
+                    }
+                }
+            }
+            Op::Unwire(k) => {
+                if it.wired.is_empty() {
+                    "skip".into()
+                } else {
+                    let (tgt, name, alias) = it.wired[*k % it.wired.len()].clone();
+                    let live: std::collections::BTreeSet<NodeId> = it.graph.node_ids().collect();
+                    if !live.contains(&tgt) || !live.contains(&alias) {
+                        "skip-dead".into()
+                    } else {
+                        match it.graph.unset_instantiation_argument(tgt, &name, alias) {
+                            Ok(()) => format!("unwired[{name}]"),
+                            Err(e) => format!("err:{}", err_chain(&e)),
+                        }
                     }
                 }
             }
@@ -1007,7 +1107,13 @@ pub fn run(run: &mut Run) {
             (Workload::Doc(Arc::new(c)), "D", p)
         }
         _ => {
-            let cases = shipped_cases();
+            // shipped documents and the hand-written ones (a fixed pool)
+            static POOL: std::sync::OnceLock<Vec<crate::gen::DocCase>> = std::sync::OnceLock::new();
+            let cases = POOL.get_or_init(|| {
+                let mut v = shipped_cases().clone();
+                v.extend(crate::gen::handwritten_cases());
+                v
+            });
             let c = cases[t.index(cases.len())].clone();
             (Workload::Doc(Arc::new(c)), "S", Vec::new())
         }
@@ -1054,8 +1160,27 @@ pub fn run(run: &mut Run) {
                 m.insert(i, ());
             }
             let canary: String = m.keys().map(|k| format!("{k}")).collect();
-            let first = observe(&w);
-            let second = observe(&w);
+            let mut first = observe(&w);
+            let mut second = observe(&w);
+            // observing a graph in the middle of its history must not change where the
+            // history ends: the same history without the mid-history observations, in the
+            // same process, ends in the same state
+            if let Workload::Graph(s) = &w {
+                if s.ops.iter().any(|o| matches!(o, Op::Snapshot)) {
+                    let stripped = GraphScript {
+                        types: s.types.clone(),
+                        ops: s.ops.iter().filter(|o| !matches!(o, Op::Snapshot)).cloned().collect(),
+                    };
+                    let quiet = final_state(&observe_graph(&stripped));
+                    let loud = final_state(&first);
+                    let verdict = match first_difference(&loud, &quiet) {
+                        None => "holds".to_string(),
+                        Some(d) => format!("VIOLATED: `{}` is `{}` with and `{}` without mid-history observation", d.0, clip(&d.1), clip(&d.2)),
+                    };
+                    first.push(("invariant:observation-does-not-perturb".into(), verdict.clone()));
+                    second.push(("invariant:observation-does-not-perturb".into(), verdict));
+                }
+            }
             (canary, first, second)
         });
         let (first, second) = match out {
@@ -1075,6 +1200,15 @@ pub fn run(run: &mut Run) {
         };
         run.add("simulated_processes", 1);
         run.add("observations_compared", (first.len() + second.len()) as u64);
+        if let Some((k, v)) = first.iter().chain(second.iter()).find(|(k, v)| k.contains("invariant:") && v.starts_with("VIOLATED")) {
+            let name = k.rsplit("invariant:").next().unwrap_or("").to_string();
+            run.violate(
+                format!("differs:{fam_name}:in-process:{name}"),
+                format!("in one process (hash seed {h:#x}) `{k}`: {}", clip(v)),
+            );
+            run.tape.event(format!("IN-PROCESS DIFFERENCE at {k}"));
+            return;
+        }
         for (which, obs) in [("fresh-process", first), ("same-process-repeat", second)] {
             match &reference {
                 None => reference = Some((*h, which, obs)),
